@@ -252,6 +252,8 @@ def extend_flag(prog, rep):
             continue
         n += 1
         c = ir.term_operand(bi, t["args"][0])
+        if c[0] == "bin" and c[1] == "Ne" and c[2][0] == "c":
+            c = ("bin", "Ne", c[3], c[2])           # 0 != x
         okc = c[0] == "bin" and c[1] == "Ne" and c[3][0] == "c" and c[3][1] == 0 and c[2][0] == "var"
         # the shift of that variable precedes the call within the same iteration
         shifted = False
